@@ -103,7 +103,18 @@ impl<'a> VisitorContext<'a> {
         name: &str,
         default: Option<fn() -> T>,
     ) -> ServerResult<T> {
-        let value = field.get_argument(name).cloned();
+        // An argument given as a variable that has no runtime value (not provided and declared
+        // without a default) counts as omitted, so the argument's default applies
+        // (GraphQL October 2021, 6.4.1 CoerceArgumentValues).
+        let value = field.get_argument(name).cloned().filter(|value| match (&value.node, self.variables) {
+            (Value::Variable(var), Some(variables)) => {
+                variables.contains_key(var)
+                    || variable_definitions
+                        .iter()
+                        .any(|def| def.node.name.node == *var && def.node.default_value.is_some())
+            }
+            _ => true,
+        });
 
         if value.is_none()
             && let Some(default) = default
